@@ -298,6 +298,39 @@ Proof.
     eapply sp_upd; eauto.
 Qed.
 
+(* ---------- set_reference_target: everything fails before the first write except the final text write *)
+Lemma raw_set_character_data_err i v version w e w' :
+  raw_set_character_data T check_fn i v version w = Val (ER e, w') -> e = IncorrectContentType /\ w' = w.
+Proof.
+  intros H. unfold raw_set_character_data in H.
+  wer H; [|noer]. winvs. wer H; [|noer]. winvs.
+  match type of H with (if ?b then _ else _) _ = _ => destruct b end; [|winvs; auto].
+  wer H; [|noer]. winvs.
+  match type of H with (match ?x with _ => _ end) _ = _ => destruct x end; [|winvs; auto].
+  wer H; [|noer]. winvs.
+  match type of H with (if ?b then _ else _) _ = _ => destruct b end; [noer|winvs; auto].
+Qed.
+
+Lemma e_set_reference_target_fail h target w e w' :
+  e_set_reference_target T tab_el tab_en check_fn LATEST h target w = Val (ER e, w') ->
+  w' = w \/ e = IncorrectContentType.
+Proof.
+  intros H. unfold e_set_reference_target in H.
+  wer H; [|left; reflexivity]. winvs. wer H; [|left; reflexivity]. winvs.
+  match type of H with (if ?b then _ else _) _ = _ => destruct b end; [winvs; left; reflexivity|].
+  wer H; [|left; reflexivity]. wer H; [|left; reflexivity]. winvs. wer H; [|left; reflexivity]. winvs.
+  wer H; [|left; reflexivity].
+  match type of H with (match ?x with _ => _ end) _ = _ => destruct x as [item|] end; [|winvs; left; reflexivity].
+  wer H; [|left; reflexivity]. wer H; [|left; reflexivity].
+  wer H; [|noer].
+  match goal with E : wtry _ _ = Val _ |- _ => apply wtry_inv in E as ([u|e0] & Et & Q); injection Q as -> end.
+  - (* the attribute was written: only the final text write can fail *)
+    right. wer H; [|noer]. wer H; [|noer]. wer H.
+    + apply raw_set_character_data_err in H. tauto.
+    + noer.
+  - left. apply nf_raw_set_attribute in Et. subst. winvs. reflexivity.
+Qed.
+
 (* ---------- create_named_sub_element: the SHORT-NAME of the new element can always be created *)
 Hypothesis tables_ok : tables_ok11 T.
 
